@@ -108,6 +108,12 @@ func GetToBeRemovedTime(node *apiv1.Node) (*time.Time, error) {
 		if err != nil {
 			return nil, err
 		}
+		// seconds beyond what time.Time can represent wrap around in time.Unix and
+		// would make the node look tainted since the distant past
+		const maxUnixSeconds = 1<<63 - 1 - 62135596800
+		if timestamp > maxUnixSeconds || timestamp < -62135596800 {
+			return nil, fmt.Errorf("taint timestamp %v is out of range", timestamp)
+		}
 		result := time.Unix(timestamp, 0)
 		return &result, nil
 	}
